@@ -38,3 +38,12 @@ package rangetask
 //@   ensures whole: result1 == nil ==> isLast || (rangeEndKey != "" && startKey >= rangeEndKey)
 
 //@ spec func inRange(s []byte, e []byte, k []byte) bool { return s <= k && (e == "" || k < e) }
+
+// A worker that observes the end of the context, or whose handler fails, records an error (so that RunOnRange cannot
+// report success for a range that was not completely handled).
+//@ func (w *rangeTaskWorker) run
+//@   prop C14
+//@   bytes: key
+//@   requires !ctxDone(ctx)
+//@   loop 1 invariant clean: !ctxDone(ctx)
+//@   ensures cancelled: ctxDone(ctx) ==> w.err != nil
